@@ -269,6 +269,7 @@ fcol = z3.Function('fcol', INT, INT, INT)
 fvalid = z3.Function('fvalid', INT, INT, INT, BOOL)  # fvalid(i, nrows, ncols): i is a valid flat position (0 <= i < nrows*ncols)
 mdot = z3.Function('mdot', A2R, A2R, A2R)               # the matrix product, as a value (uninterpreted: only congruence and the mpw equations are used)
 mpw = z3.Function('mpw', A2R, INT, A2R)                  # mpw(G, d) = G^d:  mpw(G, 1) = G,  mpw(G, d+1) = mdot(mpw(G, d), G)
+msq = z3.Function('msq', A2R, A1I, INT, INT, INT, REAL)     # msq(W, c, x, k, n) = sum_{m < k} modsum(W, c, x, m, n)^2
 pathsum = z3.Function('pathsum', A2R, A1I, INT, REAL)   # pathsum(M, p, k) = sum_{t < k-1} M[p[t]][p[t+1]]  (k nodes, k-1 steps)
 agg = z3.Function('agg', A2R, A1I, INT, INT, INT, REAL)          # agg(W, ci, a, b, n) = sum_{x,y<n, ci[x]=a+1, ci[y]=b+1} W[x][y]
 tsum = z3.Function('tsum', A2R, INT, REAL)                       # sum of all entries
@@ -2515,6 +2516,38 @@ def _sb_lemma_walk_ends(eng, st, node):
                      patterns=[walk(G, x, y, m)])
 
 
+def _sb_msq(eng, st, node):
+    W = _term2(eng, st, eng.ev(node.args[0], st))
+    c = _term1i(eng, st, eng.ev(node.args[1], st))
+    return msq(W, c, *[to_z3(eng.ev(a, st), INT) for a in node.args[2:]])
+
+
+def _sb_lemma_msq(eng, st, node):
+    """DEFINITION (Lean: msq_zero, msq_succ): msq(W, c, x, 0, n) == 0 and msq(W, c, x, k + 1, n) == msq(W, c, x, k, n) + modsum(W, c, x, k, n)^2 for the
+    given k >= 0 and every node x.  lemma_msq(W, c, k, n)."""
+    W = _term2(eng, st, eng.ev(node.args[0], st))
+    c = _term1i(eng, st, eng.ev(node.args[1], st))
+    k = to_z3(eng.ev(node.args[2], st), INT)
+    n = to_z3(eng.ev(node.args[3], st), INT)
+    x = z3.Int('x!ms')
+    sq = lambda t: eng.binop(ast.Mult(), t, t, st)
+    return z3.And(z3.ForAll([x], msq(W, c, x, z3.IntVal(0), n) == 0, patterns=[msq(W, c, x, z3.IntVal(0), n)]),
+                  z3.Implies(k >= 0, z3.ForAll([x], msq(W, c, x, k + 1, n) == msq(W, c, x, k, n) + to_z3(sq(modsum(W, c, x, k, n)), REAL), patterns=[msq(W, c, x, k + 1, n)])))
+
+
+def _sb_lemma_modsum_def(eng, st, node):
+    """DEFINITION (Lean: modsum_def_row): if R[x][y] == (W[x][y] if c[y] == m + 1 else 0) for all cells then the row sums of R are the node-to-module
+    sums: sum1(R[x]) == modsum(W, c, x, m, n).  lemma_modsum_def(R, W, c, m, n)."""
+    R = _term2(eng, st, eng.ev(node.args[0], st))
+    W = _term2(eng, st, eng.ev(node.args[1], st))
+    c = _term1i(eng, st, eng.ev(node.args[2], st))
+    m = to_z3(eng.ev(node.args[3], st), INT)
+    n = to_z3(eng.ev(node.args[4], st), INT)
+    x, y = z3.Ints('x!md y!md')
+    hyp = z3.ForAll([x, y], z3.Implies(z3.And(x >= 0, x < n, y >= 0, y < n), z3.Select(z3.Select(R, x), y) == z3.If(z3.Select(c, y) == m + 1, z3.Select(z3.Select(W, x), y), z3.RealVal(0))))
+    return z3.Implies(hyp, z3.ForAll([x], z3.Implies(z3.And(x >= 0, x < n), sum1(z3.Select(R, x), n) == modsum(W, c, x, m, n)), patterns=[sum1(z3.Select(R, x), n)]))
+
+
 def _sb_lemma_reach_closed(eng, st, node):
     """LEMMA (Lean: reach_closed, induction on the walk length): a node set P that contains s and is closed under following connections
     contains every node reachable from s.  lemma_reach_closed(G, s, P, n) with P a boolean array."""
@@ -2873,7 +2906,7 @@ SPEC_BUILTINS = {
     'dot2': _sb_dot2, 'isperm': _sb_isperm, 'same_object': _sb_same_object, 'unchanged': _sb_unchanged,
     'snapshot': _sb_snapshot, 'argref': _sb_argref, 'lam1': _sb_lam1, 'KCf': _sb_KCf, 'KNf': _sb_KNf, 'result_is_empty': _sb_result_is_empty, 'hopsint': _sb_hopsint, 'lam2': _sb_lam2, 'unique_witness': _sb_unique_witness, 'member': _sb_member, 'dset': _sb_dset(dset), 'rset': _sb_dset(rset), 'wset': _sb_dset(wset), 'cntb': _sb_cntb,
     'modsum': _mk_mod(modsum, 3), 'modsumT': _mk_mod(modsumT, 3), 'degsum': _mk_mod(degsum, 2), 'degsumT': _mk_mod(degsumT, 2), 'agg': _mk_mod(agg, 3),
-    'Qmod': _sb_Qmod, 'walk': _sb_walk, 'isint': (lambda eng, st, node: z3.IsInt(to_z3(eng.ev(node.args[0], st), REAL))), 'sdist': _sb_sdist, 'lemma_walks': _sb_lemma_walks, 'Qrawg': _sb_Qrawg, 'umul': _sb_umul, 'lemma_umul_linear': _sb_lemma_umul_linear, 'QrawB': _mk_mod(QrawB, 1), 'tsum': _mk_specfn(tsum, 1), 'csum': _mk_specfn(csum, 2), 'lemma_modularity': _sb_lemma_modularity, 'lemma_knm_sums': _sb_lemma_knm_sums, 'lemma_relabel': _sb_lemma_relabel, 'lemma_relabel_g': _sb_lemma_relabel_g, 'lemma_agg_compose': _sb_lemma_agg_compose, 'pathsum': _sb_pathsum, 'lemma_pathsum': _sb_lemma_pathsum, 'appended_value': (lambda eng, st, node: st.ghost['_append_last'][1]), 'lemma_reach_closed': _sb_lemma_reach_closed, 'lemma_walk_ends': _sb_lemma_walk_ends, 'lemma_nonneg_sum_zero': _sb_lemma_nonneg_sum_zero, 'mpw': _sb_mpw, 'mateq': _sb_mateq, 'lemma_mpw': _sb_lemma_mpw, 'lemma_pathsum_append': _sb_lemma_pathsum_append, 'lemma_ext_B': _sb_lemma_ext_B, 'lemma_Q_from_kernel': _sb_lemma_Q_from_kernel, 'lemma_QrawB_def': _sb_lemma_QrawB_def, 'lemma_trace_agg': _sb_lemma_trace_agg, 'lemma_relabel_B': _sb_lemma_relabel_B, 'lemma_agg_compose_B': _sb_lemma_agg_compose_B, 'lemma_Qrawg_def': _sb_lemma_Qrawg_def, 'lemma_agg_compose_g': _sb_lemma_agg_compose_g, 'lemma_qg_from_aggregate': _sb_lemma_qg_from_aggregate, 'lemma_flat_count': _sb_lemma_flat_count, 'unique_count': (lambda eng, st, node: st.ghost['unique_count_last']), 'rounds_to': _sb_rounds_to, 'where_index': _sb_where_index, 'where_index1': _sb_where_index1, 'argsort_inverse': _sb_argsort_inverse, 'exists': _sb_exists, 'lemma_tsum_add': _sb_lemma_tsum_add, 'lemma_tsum_int': _sb_lemma_tsum_int, 'lemma_full_offdiag': _sb_lemma_full_offdiag, 'flat_store_rows': (lambda eng, st, node: st.ghost['_flat_store'][0]), 'flat_store_cols': (lambda eng, st, node: st.ghost['_flat_store'][1]), 'flat_store_len': (lambda eng, st, node: st.ghost['_flat_store'][2]), 'lemma_tsum_plus_transpose': _sb_lemma_tsum_plus_transpose, 'lemma_image_count': _sb_lemma_image_count,
+    'Qmod': _sb_Qmod, 'walk': _sb_walk, 'isint': (lambda eng, st, node: z3.IsInt(to_z3(eng.ev(node.args[0], st), REAL))), 'sdist': _sb_sdist, 'lemma_walks': _sb_lemma_walks, 'Qrawg': _sb_Qrawg, 'umul': _sb_umul, 'lemma_umul_linear': _sb_lemma_umul_linear, 'QrawB': _mk_mod(QrawB, 1), 'tsum': _mk_specfn(tsum, 1), 'csum': _mk_specfn(csum, 2), 'lemma_modularity': _sb_lemma_modularity, 'lemma_knm_sums': _sb_lemma_knm_sums, 'lemma_relabel': _sb_lemma_relabel, 'lemma_relabel_g': _sb_lemma_relabel_g, 'lemma_agg_compose': _sb_lemma_agg_compose, 'pathsum': _sb_pathsum, 'lemma_pathsum': _sb_lemma_pathsum, 'appended_value': (lambda eng, st, node: st.ghost['_append_last'][1]), 'lemma_reach_closed': _sb_lemma_reach_closed, 'msq': _sb_msq, 'lemma_msq': _sb_lemma_msq, 'lemma_modsum_def': _sb_lemma_modsum_def, 'lemma_walk_ends': _sb_lemma_walk_ends, 'lemma_nonneg_sum_zero': _sb_lemma_nonneg_sum_zero, 'mpw': _sb_mpw, 'mateq': _sb_mateq, 'lemma_mpw': _sb_lemma_mpw, 'lemma_pathsum_append': _sb_lemma_pathsum_append, 'lemma_ext_B': _sb_lemma_ext_B, 'lemma_Q_from_kernel': _sb_lemma_Q_from_kernel, 'lemma_QrawB_def': _sb_lemma_QrawB_def, 'lemma_trace_agg': _sb_lemma_trace_agg, 'lemma_relabel_B': _sb_lemma_relabel_B, 'lemma_agg_compose_B': _sb_lemma_agg_compose_B, 'lemma_Qrawg_def': _sb_lemma_Qrawg_def, 'lemma_agg_compose_g': _sb_lemma_agg_compose_g, 'lemma_qg_from_aggregate': _sb_lemma_qg_from_aggregate, 'lemma_flat_count': _sb_lemma_flat_count, 'unique_count': (lambda eng, st, node: st.ghost['unique_count_last']), 'rounds_to': _sb_rounds_to, 'where_index': _sb_where_index, 'where_index1': _sb_where_index1, 'argsort_inverse': _sb_argsort_inverse, 'exists': _sb_exists, 'lemma_tsum_add': _sb_lemma_tsum_add, 'lemma_tsum_int': _sb_lemma_tsum_int, 'lemma_full_offdiag': _sb_lemma_full_offdiag, 'flat_store_rows': (lambda eng, st, node: st.ghost['_flat_store'][0]), 'flat_store_cols': (lambda eng, st, node: st.ghost['_flat_store'][1]), 'flat_store_len': (lambda eng, st, node: st.ghost['_flat_store'][2]), 'lemma_tsum_plus_transpose': _sb_lemma_tsum_plus_transpose, 'lemma_image_count': _sb_lemma_image_count,
     'frow': (lambda eng, st, node: frow(to_z3(eng.ev(node.args[0], st), INT), to_z3(eng.ev(node.args[1], st), INT))), 'fcol': (lambda eng, st, node: fcol(to_z3(eng.ev(node.args[0], st), INT), to_z3(eng.ev(node.args[1], st), INT))), 'lemma_agg_symm': _sb_lemma_agg_symm, 'lemma_agg_identity': _sb_lemma_agg_identity, 'lemma_q_from_aggregate': _sb_lemma_q_from_aggregate,
     'lemma_masked_degree': _sb_lemma_masked_degree, 'lemma_degree_monotone': _sb_lemma_degree_monotone, 'result': _sb_result, 'raised': _sb_raised, 'shape_is': _sb_shape_is,
 }
